@@ -6,15 +6,23 @@ PROPS = 'Props/C01.v'
 
 
 def gen_cases(rng, tier):
-    nbig, nsmall = (14, 150) if tier == 'quick' else (150, 1500)
+    nbig, nsmall = (3, 80) if tier == 'quick' else (150, 1500)
     cases = [dict(mode='laws', ops=[dict(op='w', kind=1, seed=rng.randrange(1, 1 << 20), len=wrlib.BS),
                                     dict(op='w', kind=1, seed=7, len=wrlib.BS),
                                     dict(op='w', kind=0, seed=0, len=0), dict(op='w', kind=2, seed=3, len=wrlib.BS),
                                     dict(op='w', kind=1, seed=9, len=rng.randrange(1, 5000)),
                                     dict(op='w', kind=0, seed=9, len=1)])]
+    # the block boundary arithmetic of Write, always: exact fill, one over, one short, full block, multi-block
+    BS = wrlib.BS
+    for k, lens in enumerate(([1, BS - 1], [100, BS - 99], [7, BS - 8, 1], [BS, 1], [2 * BS + 1], [BS - 1, 2])):
+        ops = [dict(op='w', kind=rng.choice([0, 2]), seed=rng.randrange(1, 1000), len=n) for n in lens] + [dict(op='close')]
+        cases.append(dict(mode='rt', ops=ops, level=rng.choice([-1, 1, 6]), wc=k % 5, rd=k % 3, reads=[rng.choice([4096, BS, 100000])],
+                          delay=0, hbytes=True))
     for i in range(nbig + nsmall):
         big = i < nbig
         ops = wrlib.gen_script(rng, big, nops=(rng.randrange(1, 4) if big else None), after_close=(rng.random() < 0.1))
+        if tier == 'quick':
+            wrlib.cap_total(ops, 2 * wrlib.BS + 700, rng)
         reads = [rng.choice([0, 0, 1, 2, 7, 100, 4096, wrlib.BS - 1, wrlib.BS, wrlib.BS + 1, 200000]) for _ in range(rng.randrange(1, 5))]
         if wrlib.total_len(ops) > 20000:
             reads = [r for r in reads if r > 6] or [4096]
